@@ -222,10 +222,14 @@ func init() {
 	reg(vxPkg+"NodeHashesSeparated", func(in *Interp, c *Frame, fn *ssa.Function, a []Value) Value {
 		in.assume(in.collisionFreeAxioms())
 		in.assume(in.nodeHashSeparationAxioms())
+		in.extra["idealhash"] = 2
 		return nil
 	})
 	reg(vxPkg+"CollisionFree", func(in *Interp, c *Frame, fn *ssa.Function, a []Value) Value {
 		in.assume(in.collisionFreeAxioms())
+		if _, ok := in.extra["idealhash"]; !ok {
+			in.extra["idealhash"] = 1
+		}
 		return nil
 	})
 	reg(vxPkg+"Thorough", func(in *Interp, c *Frame, fn *ssa.Function, a []Value) Value {
